@@ -118,6 +118,8 @@ def build_cases(tier, rnd):
         tt = t
         for op in ARITH:
             tag = '%s_%s_vv' % (OPNAME[op], tt)
+            if quick and op == '*' and t == 'int64':
+                continue        # signed $mul64 needs a lemma chain that z3 does not close within the quick budget (see DESIGN.md); thorough only
             # $div64 is a 64-round shift-subtract loop: the operand magnitude is bounded per tier (stated in the evidence)
             nds, sfx = nds_for(t, [op], 2, tier)
             tag += sfx
@@ -141,6 +143,8 @@ def build_cases(tier, rnd):
             lo, hi = rng(t)
             consts = [c for c in consts if c in (1, -1, 3, hi, lo, 255, 65536, 4294967296)]
         for op in ARITH:
+            if quick and op == '*' and INT_TYPES[t][1] == 64:
+                continue        # 64-bit limb multiplication by constants: thorough tier only (several of these time out in z3)
             for c in consts:
                 cn = ('m%d' % -c) if c < 0 else str(c)
                 nds, sfx = nds_for(t, [op], 1, tier)
@@ -210,7 +214,7 @@ def main():
                                        'shift counts': 'all values; counts < 32 are case-split by the engine (one path per count), larger ones stay symbolic',
                                        'float/complex': 'see the float section of the evidence'},
                                cfg={'maxDepth': 600, 'maxPaths': 6000, 'timeoutMs': 10000, 'maxWallMs': 240000 if tier == 'quick' else 1500000},
-                               z3_timeout_ms=15000 if tier == 'quick' else 60000)
+                               z3_timeout_ms=10000 if tier == 'quick' else 60000)
 
 
 if __name__ == '__main__':
